@@ -1,6 +1,7 @@
 SPECIFICATION Spec
 CONSTANTS
   Mode = "copy"
+  EarlyExit = FALSE
   MaxLen = 2
 INVARIANT EachTestStartsFromSetup
 INVARIANT ResultIndependentOfHistory
